@@ -422,6 +422,69 @@ func runC17(c *fw.Ctx, cs fw.Case) {
 				c.Violate("tt:used-range", "Used() left [0,1] during the fill")
 			}
 		}
+	case "bigtable":
+		// sizes nobody tests with: a table of 1 GiB (Hash 1024; the option goes to 16384) and sizes that are not
+		// powers of two; several goroutines make the table's very first stores and lookups together
+		for i := 0; i < cs.N; i++ {
+			size := []uint64{1 << 30, 3 << 20, 48 << 20, 1 << 30}[(i+cs.Idx)%4]
+			tt := search.NewTranspositionTable(ctx, size)
+			if tt.Size() > size || tt.Size() == 0 {
+				c.Violate("tt:size", "table asked for %d bytes reports size %d", size, tt.Size())
+				continue
+			}
+			slots := tt.Size() / 32
+			var wg sync.WaitGroup
+			start := make(chan struct{})
+			var bad atomic.Int64
+			var note atomic.Value
+			for g := 0; g < 6; g++ {
+				wg.Add(1)
+				go func(g int) {
+					defer wg.Done()
+					rr := rand.New(rand.NewSource(fw.Mix(cs.Seed, int64(g))))
+					<-start
+					for k := 0; k < 400; k++ {
+						h := board.ZobristHash(rr.Uint64())
+						if g%2 == 0 {
+							p := mkPayload(h, g+1, k+1, rr)
+							tt.Write(h, p.bound, p.ply, p.depth, p.score, p.move)
+							if _, d, sc, _, ok := tt.Read(h); ok {
+								if w, q := tagOf(sc); (w != g+1 || q != k+1 || d != p.depth) && tagSum(w, q) == sc.Mate {
+									// (another writer may have taken the slot: then the tag is that writer's, consistently)
+									if w == g+1 {
+										bad.Add(1)
+										note.Store(fmt.Sprintf("own store w%d#%d depth %d read back as #%d depth %d", g+1, k+1, p.depth, q, d))
+									}
+								}
+							}
+						} else {
+							if _, _, sc, _, ok := tt.Read(h); ok {
+								if w, q := tagOf(sc); tagSum(w, q) != sc.Mate {
+									bad.Add(1)
+									note.Store(fmt.Sprintf("lookup of a never-stored hash returned a tuple with inconsistent tag %v", sc))
+								}
+							}
+						}
+						if u := tt.Used(); u < 0 || u > 1 {
+							bad.Add(1)
+							note.Store(fmt.Sprintf("Used() = %v", u))
+						}
+					}
+				}(g)
+			}
+			close(start)
+			wg.Wait()
+			c.Eval(1)
+			c.Count("big_tables", 1)
+			c.Count("ops", 6*400)
+			c.DistinctHash(size ^ uint64(cs.Seed)<<8 ^ uint64(i))
+			if bad.Load() > 0 {
+				c.Violate("tt:big-table", "table of %d bytes (%d slots), first use by six goroutines at once: %v", size, slots, note.Load())
+			}
+			if u := tt.Used(); u*float64(slots) > 3*400+0.5 {
+				c.Violate("tt:used-count", "after at most %d stores Used() counts %.0f slots of %d", 3*400, u*float64(slots), slots)
+			}
+		}
 	case "enginefill":
 		// the fill fraction as an engine reports it (PV.Hash, UCI hashfull) over several games on one engine:
 		// a new game starts from an empty table, so each analysis must report, depth by depth, the fill a
@@ -568,9 +631,9 @@ func init() {
 	fw.Register(&fw.Monitor{
 		ID:          "C17",
 		Level:       "exploration",
-		RaceKinds:   map[string]bool{"lin": true, "stress": true, "fill": true, "search": true},
+		RaceKinds:   map[string]bool{"lin": true, "stress": true, "fill": true, "search": true, "bigtable": true},
 		Technique:   "race detector + offline linearizability checking (porcupine) of recorded Read/Write histories against a sequential slot model, tagged payloads for tuple integrity, quiescent-point checks of the fill counter, hook-point perturbation of the CAS loop",
-		Rule:        "enginefill: 3-5 games in a row on one engine (four recipes, hash 1-4 MB): the fill reported with every iteration is in [0,1] and equals, depth by depth, what a freshly started engine reports for the same analysis; histories: tables of 1-8 slots, 2-6 clients x 30-90 operations (55% Write / 45% Read) over 1-4 hashes per slot, call/return stamped from one atomic counter, checked per slot with porcupine (timeout => inconclusive); stress: 4-16 clients x 500-3500 operations with tuple-integrity, final-replacement-value and fill-count checks; fill: every slot of 2^10..2^14-slot tables written by 8-16 clients, Used() must be exactly 1; search: 2-5 concurrent alpha-beta searches sharing a table must return the table-less value; the same histories run in the plain build (faster, more interleavings) and the -race build; yields/sleeps injected at tt.read / tt.write.loaded / tt.write.swapped; distinct = distinct histories by (event count, accepted stores, hits)",
+		Rule:        "bigtable: tables of 1 GiB, 3 MiB and 48 MiB (sizes that are not the usual small powers of two) first used by six goroutines at once (race build); enginefill: 3-5 games in a row on one engine (four recipes, hash 1-4 MB): the fill reported with every iteration is in [0,1] and equals, depth by depth, what a freshly started engine reports for the same analysis; histories: tables of 1-8 slots, 2-6 clients x 30-90 operations (55% Write / 45% Read) over 1-4 hashes per slot, call/return stamped from one atomic counter, checked per slot with porcupine (timeout => inconclusive); stress: 4-16 clients x 500-3500 operations with tuple-integrity, final-replacement-value and fill-count checks; fill: every slot of 2^10..2^14-slot tables written by 8-16 clients, Used() must be exactly 1; search: 2-5 concurrent alpha-beta searches sharing a table must return the table-less value; the same histories run in the plain build (faster, more interleavings) and the -race build; yields/sleeps injected at tt.read / tt.write.loaded / tt.write.swapped; distinct = distinct histories by (event count, accepted stores, hits)",
 		Assumptions: []string{"sequential model: a slot holds nothing or (hash, payload, value); Write stores iff value(new) >= value(current) and reports it; Read(h) returns the payload iff the slot's hash is h", "porcupine v1.3.0", "depth and ply within the entry's 16-bit fields (0..65535)"},
 		Timeout:     minutes(15, 120),
 		Cases: func(tier string, seed int64) []fw.Case {
@@ -580,11 +643,12 @@ func init() {
 			l = mkCases(l, "stressplain", 16, seed, pick(tier, 12, 600))
 			l = mkCases(l, "fill", 8, seed, pick(tier, 2, 60))
 			l = mkCases(l, "enginefill", 8, seed, pick(tier, 4, 150))
+			l = mkCases(l, "bigtable", 2, seed, pick(tier, 2, 8))
 			l = mkCases(l, "search", 16, seed, pick(tier, 6, 300))
 			return l
 		},
 		Floors: func(string) map[string]int64 {
-			return map[string]int64{"histories": 1000, "linearizable_histories": 800, "ops": 1000000, "read_hits": 50000, "fills": 10, "concurrent_search_groups": 50, "engine_fill_later_games": 40, "engine_fill_nonzero": 40}
+			return map[string]int64{"histories": 1000, "linearizable_histories": 800, "ops": 1000000, "read_hits": 50000, "fills": 10, "concurrent_search_groups": 50, "engine_fill_later_games": 40, "engine_fill_nonzero": 40, "big_tables": 4}
 		},
 		Run: runC17,
 	})
